@@ -6,6 +6,15 @@ template<size_t L> static void vert(ull code, ull cp)
 	auto p = DataColumnTraits<DataStructDefault<>, L>::GetVertices(uint64_t(code), size_t(cp));
 	printf("%llu %llu\n", ull(p.first), ull(p.second));
 }
+// the real pvGetOffset on arbitrary member values (not only reachable ones): tie of the cxx2coq translation Gen_List.pvGetOffset
+template<size_t L> static void unitLookup(ull cp, ull code, ull a1, ull a2)
+{
+	typename Runner<L, false>::CL cl;
+	cl.mCodeParam = size_t(cp);
+	auto v = DataColumnTraits<DataStructDefault<>, L>::GetVertices(uint64_t(code), size_t(cp));
+	cl.mAddends[v.first] = size_t(a1); cl.mAddends[v.second] = size_t(a2);
+	printf("%llu\n", ull(cl.pvGetOffset(uint64_t(code))));
+}
 static void unitVertices(ull L, ull code, ull cp)
 {
 	switch (L) {
@@ -23,6 +32,7 @@ int main()
 		std::istringstream is(line);
 		std::string first; is >> first;
 		if (first == "v") { ull L, code, cp; is >> L >> code >> cp; unitVertices(L, code, cp); fflush(stdout); continue; }
+		if (first == "p") { ull L, cp, code, a1, a2; is >> L >> cp >> code >> a1 >> a2; if (L == 4) unitLookup<4>(cp, code, a1, a2); else unitLookup<8>(cp, code, a1, a2); fflush(stdout); continue; }
 		if (first == "c") { ull v, m; is >> v >> m; printf("%llu\n", ull(internal::UIntMath<>::Ceil(size_t(v), size_t(m)))); continue; }
 		ull L = std::strtoull(first.c_str(), nullptr, 10), keep; is >> keep;
 		std::vector<std::vector<ColSpec>> ops; std::vector<ColSpec> extras; std::vector<ull> universe;
